@@ -7,6 +7,7 @@ CONSTANTS MaxPre = {maxpre}
           MaxSnap = {maxsnap}
           Legacy = {legacy}
           MaxHist = 2
+          Cuts = {cuts}
 VIEW View
 {emit}
 INVARIANTS OkMeetsPost {inv}
@@ -40,17 +41,21 @@ def run(ctx):
     q = ctx.quick
     # (a) the design: the record-by-record import + transactional rollback meets the post-conditions the trace spec
     #     uses (OkMeetsPost, FailUnchanged); the same run emits one scenario per (pre-existing store, snapshot, keys)
-    scripts = ctx.tlc_gen("MC_Snapshot", GEN.format(maxpre=2, maxsnap=2 if q else 3, legacy="FALSE", emit="ACTION_CONSTRAINT Emit",
+    scripts = ctx.tlc_gen("MC_Snapshot", GEN.format(maxpre=2, maxsnap=2, legacy="FALSE", emit="ACTION_CONSTRAINT Emit", cuts="TRUE",
                                                     inv="FailUnchanged LegacyExplained"), "design", workers=4, timeout=3000)
+    if not q:
+        # larger snapshots (3 node records, chains of relationships): complete imports only, scenarios for the replay
+        scripts += ctx.tlc_gen("MC_Snapshot", GEN.format(maxpre=2, maxsnap=3, legacy="FALSE", emit="ACTION_CONSTRAINT Emit", cuts="FALSE",
+                                                         inv=""), "scenarios3", workers=4, timeout=3000)
     # (b) anti-vacuity: the pinned tree's rollback (delete created nodes only) violates FailUnchanged ...
-    ctx.tlc_gen("MC_Snapshot", GEN.format(maxpre=2, maxsnap=2, legacy="TRUE", emit="", inv="FailUnchanged"),
+    ctx.tlc_gen("MC_Snapshot", GEN.format(maxpre=2, maxsnap=2, legacy="TRUE", emit="", cuts="TRUE", inv="FailUnchanged"),
                 "selftest-legacy-rollback", expect_violation=True, workers=2)
     if not q:
         # ... and everything it leaves behind is characterised exactly by the deviation predicate
-        ctx.tlc_gen("MC_Snapshot", GEN.format(maxpre=2, maxsnap=2, legacy="TRUE", emit="", inv="LegacyExplained"),
+        ctx.tlc_gen("MC_Snapshot", GEN.format(maxpre=2, maxsnap=2, legacy="TRUE", emit="", cuts="TRUE", inv="LegacyExplained"),
                     "legacy-explained", workers=4, timeout=2400)
     ctx.rng.shuffle(scripts)
-    scripts = scripts[:24 if q else 200]
+    scripts = scripts[:24 if q else 40]
     # pre-existing store loaded through the API (row properties) and through an import (column properties)
     for i, s in enumerate(scripts):
         if i % 2:
